@@ -37,7 +37,23 @@ impl TcpObservation {
     }
 
     pub(crate) fn distance_quirks(&self, other: &tcp::Signature) -> Option<u32> {
-        if self.quirks == other.quirks {
+        // Some quirks only exist for one IP version (df, id+, id-, 0+: IPv4; flow: IPv6) and are
+        // ignored for the other one, so that a `*`-version signature listing them can match both.
+        let version = self.version;
+        let relevant = move |quirk: &&tcp::Quirk| -> bool {
+            use tcp::Quirk::*;
+            match (version, *quirk) {
+                (IpVersion::V6, Df | NonZeroID | ZeroID | MustBeZero) => false,
+                (IpVersion::V4, FlowID) => false,
+                _ => true,
+            }
+        };
+        if self
+            .quirks
+            .iter()
+            .filter(relevant)
+            .eq(other.quirks.iter().filter(relevant))
+        {
             Some(tcp::TcpMatchQuality::High.as_score())
         } else {
             None
